@@ -310,7 +310,9 @@ func runC11(c *Ctx) {
 		target     *types.Var
 	}
 	callsOn := func(r *Row, name string, through types.Object) []*Effect {
-		return r.Calls(func(e *Effect) bool { return e.Kind == "call" && e.Callee != nil && e.Callee.Name() == name && e.RecvHas(through) })
+		return r.Calls(func(e *Effect) bool {
+			return e.Kind == "call" && e.Callee != nil && e.Callee.Name() == name && e.RecvHas(through)
+		})
 	}
 	// push side
 	for _, o := range []op{{"Send", outF, inF, "NotifySend", connF}, {"Deliver", inF, outF, "NotifyRecv", compF}} {
@@ -322,7 +324,9 @@ func runC11(c *Ctx) {
 		t := ExtractTable(p, f, TableConfig{Domain: dom, Inline: portHelper(p)})
 		roles := []Role{
 			{Name: "can", IsBool: true, Match: func(a *Atom) bool { return a.HasName("CanPush") && a.Has(o.buf) }},
-			{Name: "size", Match: func(a *Atom) bool { return (a.HasName("Size") || a.HasName("NumIncoming") || a.HasName("NumOutgoing")) && a.Has(o.buf) }},
+			{Name: "size", Match: func(a *Atom) bool {
+				return (a.HasName("Size") || a.HasName("NumIncoming") || a.HasName("NumOutgoing")) && a.Has(o.buf)
+			}},
 			{Name: "nocomp", IsBool: true, Match: func(a *Atom) bool { return strings.Contains(a.Key, "nil ==") && a.Has(compF) }},
 		}
 		CheckTable(c, "port-push-table", "messaging.defaultPort."+o.name, p.Decl(f).Pos(), t, roles, dom,
@@ -399,7 +403,9 @@ func runC11(c *Ctx) {
 				// the buffer was full before the pop iff size_after == cap-1, or — when the
 				// code samples the size before popping — iff size_before == cap
 				sizeAtom := r.Atom(func(a *Atom) bool { return !a.IsBool && a.HasName("Size") && a.Has(o.buf) })
-				popAtom := r.Atom(func(a *Atom) bool { return a.IsBool && strings.Contains(a.Key, "nil ==") && a.HasName("Pop") && a.Has(o.buf) })
+				popAtom := r.Atom(func(a *Atom) bool {
+					return a.IsBool && strings.Contains(a.Key, "nil ==") && a.HasName("Pop") && a.Has(o.buf)
+				})
 				sampledBefore := sizeAtom != nil && popAtom != nil && sizeAtom.Gen < popAtom.Gen
 				wasFull := v["after"] == v["cap"]-1
 				if sampledBefore {
